@@ -128,8 +128,7 @@ theorem roundtrip22 (cov : List Nat) (hcov : Cov.Valid cov) (c1 c2 : ClassPart) 
     (k1 k2 : List (Nat × Nat)) (g1 : PartGood c1 B1 k1) (g2 : PartGood c2 B2 k2) (rows : List Row)
     (hrows : ∀ r ∈ rows, r.length = class2Count rows)
     (hok : ∀ r ∈ rows, ∀ p ∈ r, VROk p.1 ∧ VROk p.2)
-    (hn1 : rows.length < 65536) (hn2 : class2Count rows < 65536)
-    (hn : rows.length * class2Count rows < 65536) (b : Bytes)
+    (hn1 : rows.length < 65536) (hn2 : class2Count rows < 65536) (b : Bytes)
     (henc : encode22 cov c1 c2 rows = .ok b) :
     read22 b = .ok ⟨cov, k1, k2, rows.map fun r => r.map (maskPair (fmt1 rows) (fmt2 rows))⟩ ∧
     encodeLen22 cov c1 c2 rows = .ok b.length := by
@@ -138,6 +137,9 @@ theorem roundtrip22 (cov : List Nat) (hcov : Cov.Valid cov) (c1 c2 : ClassPart) 
   unfold encode22 at henc
   simp only [Cov.encodeLen_eq cov hcov, ← Cov.encodeW_length cov hcov, Cov.encode_eq cov hcov, g1.bytes,
     g2.bytes, g1.len] at henc
+  split at henc
+  · simp at henc
+  rename_i hn
   split at henc
   · simp at henc
   rename_i hfit
